@@ -1,10 +1,92 @@
-import AcraModel.Basic.Bytes
-/-! Driver ops for C19. -/
+import AcraModel.Typed.Describe
+/-! Driver ops for C19 (typed columns). -/
 namespace Driver.C19
-open AcraModel
+open AcraModel AcraModel.Typed
+
+def parseType : String → Option (Option DataType)
+  | "int32" => some (some .int32) | "int64" => some (some .int64)
+  | "str" => some (some .str) | "bytes" => some (some .bytes)
+  | "none" => some none
+  | _ => none
+
+/-- `empty` = response_on_fail not given -/
+def parseOnFail : String → Option (Option Policy)
+  | "ciphertext" => some (some .ciphertext) | "default_value" => some (some .defaultValue)
+  | "error" => some (some .error) | "empty" => some none
+  | _ => none
+
+def parseOptBytes (s : String) : Option (Option Bytes) :=
+  if s = "none" then some none else (ofHex s).map some
+
+def parseBool : String → Option Bool
+  | "true" => some true | "false" => some false | _ => none
+
+def showRes : Res → String
+  | .value b rb => s!"value {hexOf b} {rb}"
+  | .encodingError => "encerr"
+  | .otherError => "err"
+
+def mkRaw (t onFail dflt utf8 b64 : String) : Option RawSetting := do
+  let t ← parseType t
+  let p ← parseOnFail onFail
+  let d ← parseOptBytes dflt
+  let u ← parseBool utf8
+  let b ← parseOptBytes b64
+  pure ⟨t, p, d, u, b⟩
 
 def handle (op : String) (args : List String) : Option String :=
   match op, args with
+  | "parseint", [bits, s] => do
+      let bits ← bits.toNat?
+      let s ← ofHex s
+      pure (match parseInt s bits with | some n => s!"ok {n}" | none => "err")
+  | "formatint", [n] => do
+      let n ← n.toInt?
+      pure ("ok " ++ hexOf (formatInt n))
+  | "int.bin", [order, k, n] => do
+      let k ← k.toNat?
+      let n ← n.toInt?
+      if order = "be" then pure (hexOf (intToBE k n)) else if order = "le" then pure (hexOf (intToLE k n)) else none
+  | "int.unbin", [order, b] => do
+      let b ← ofHex b
+      if order = "be" then pure s!"{beToInt b}" else if order = "le" then pure s!"{leToInt b}" else none
+  -- configuration validation: does Init accept the column setting, and what does it become
+  | "setting.pg", [t, onFail, dflt, utf8, b64] | "setting.my", [t, onFail, dflt, utf8, b64] => do
+      let raw ← mkRaw t onFail dflt utf8 b64
+      pure (match initSetting raw with
+        | some s => "ok " ++ (match s.policy with | .ciphertext => "ciphertext" | .defaultValue => "default_value" | .error => "error")
+        | none => "err")
+  -- PostgreSQL: decoder → reveal → encoder for one column
+  | "pg.read", [t, onFail, dflt, utf8, b64, fmt, reveal, wire] => do
+      let raw ← mkRaw t onFail dflt utf8 b64
+      let binary ← (if fmt = "binary" then some true else if fmt = "text" then some false else none)
+      let reveal ← parseOptBytes reveal
+      let wire ← ofHex wire
+      match initSetting raw with
+      | none => pure "badsetting"
+      | some s => pure (showRes (pgTypedRead s binary ⟨raw.defaultB64⟩ (fun _ => reveal) wire))
+  | "pg.describe", [t, dbOid] => do
+      let t ← parseType t
+      let dbOid ← dbOid.toNat?
+      pure s!"{pgDescribe ⟨t, .ciphertext, none, true⟩ true dbOid}"
+  -- MySQL: decoder → reveal → encoder for one column stored under `origType`
+  | "my.read", [t, onFail, dflt, utf8, b64, fmt, origType, reveal, wire] => do
+      let raw ← mkRaw t onFail dflt utf8 b64
+      let binary ← (if fmt = "binary" then some true else if fmt = "text" then some false else none)
+      let origType ← origType.toNat?
+      let reveal ← parseOptBytes reveal
+      let wire ← ofHex wire
+      match initSetting raw with
+      | none => pure "badsetting"
+      | some s =>
+        -- column info as `onColumnDecryption` builds it: (field.Type, field.originType)
+        let (colType, originType) := match s.dataType with
+          | some dt => (myTypeCode dt, origType)
+          | none => (origType, 0)
+        let r := myTypedRead s binary colType originType ⟨raw.defaultB64⟩ (fun _ => reveal) wire
+        pure (match myDeliveredType s origType r with
+          | some d => s!"{showRes r} {d}"
+          | none => showRes r)
   | _, _ => none
 
 end Driver.C19
